@@ -27,6 +27,7 @@ def main():
     except ImportError as e:
         print('CHECKER-ERROR no check for %s: %s' % (a.pid, e))
         return 3
+    core.TIER[0] = a.tier
     ctx = core.Ctx(a.pid, a.tier, seed)
     try:
         units = mod.units(ctx)
